@@ -116,13 +116,14 @@ def bytes_oracle(op, line, derived):
 
 def run(ctx):
     facts = ctx.facts() or {}
-    thms = ctx.build_and_audit(["NutsProofs.Props.C17", "NutsProofs.Props.C17Framing", "NutsProofs.Props.C17Fold"])
+    thms = ctx.build_and_audit(["NutsProofs.Props.C17", "NutsProofs.Props.C17Framing", "NutsProofs.Props.C17Fold", "NutsProofs.Props.C17Kid"])
     required = ["allowed_lists_asymmetric", "accept_parseJWT", "accept_parseJWS", "accept_dpop", "accept_dagTx", "accept_dagTx_partial", "accept_dagTx_of_fact",
                 "fact_dag_rejects_private_jwk", "fact_dag_framing_body", "fact_dag_kid_xor_jwk", "fact_alg_fits_key", "fits_is_the_algorithm_of_the_curve", "fact_verifiers_hold_no_key_state", "key_is_current_resolution",
                 "accept_apiToken", "accept_jar", "accept_vcJwt", "accept_vcJsonLd", "fact_vcJsonLd", "fact_wiring", "accept_authzV1", "accept_ldProof", "fact_authzV1",
                 "authzV1_without_kid_check_accepts_foreign_key", "header_keys_ignored", "apiToken_key_header_rejected",
                 "parseJWS_splitCompact_mode_accepts_two_uncovered", "dagTx_without_private_check_accepts_private_jwk",
                 "apiToken_atLeastOne_rule_accepts_two_signatures",
+                "fact_resolveSigningKey", "kid_issuer_test_exact", "kid_issuer_test_complete", "resolved_kid_is_issuers", "vcJwtSignatureK_refines", "accept_vcJwtK",
                 "fact_fold_guard", "fact_caseVariantMember", "fold_s_k_orbits", "fold_ascii", "toLower_misses_long_s", "ambiguousMember_refuses_every_conflated_pair",
                 "accept_vcJsonLdDoc", "toLower_guard_accepts_conflated_pair",
                 "fact_dag_framing_consts", "fact_alphabet", "fact_signatureAlgorithm", "rawurl_roundtrip", "encode_is_canonical", "canonical_segment_unique",
@@ -170,7 +171,7 @@ def run(ctx):
     replay_c = None
     if ctx.replay:
         txt = open(ctx.replay).read()
-        replay_c = ("c17dag" if ('"hex"' in txt or '"sigalg"' in txt) else "c17jar" if '"jar"' in txt else "c17vc" if ('"vcjwt"' in txt or '"vcld"' in txt or '"vcldfold"' in txt or '"ambig"' in txt) else
+        replay_c = ("c17dag" if ('"hex"' in txt or '"sigalg"' in txt) else "c17jar" if '"jar"' in txt else "c17vc" if ('"vcjwt"' in txt or '"vcld"' in txt or '"vcldfold"' in txt or '"ambig"' in txt or '"resolvekid"' in txt) else
                     "c17az" if ('"authzv1"' in txt or '"introspect"' in txt) else "c17ld" if '"ldproof"' in txt else "c17")
     for (pkg, files, name) in HARNESSES:
         if replay_c and replay_c != name:
@@ -201,6 +202,18 @@ def run(ctx):
             if i >= len(ops) or not ops[i]:
                 continue
             op = json.loads(ops[i])
+            if op.get("op") == "resolvekid":
+                table.setdefault("resolvekid", Counter())["asked-differs-from-kid" if line != op["kid"] else "asked-kid"] += 1
+                distinct.add(("resolvekid", op["kid"][:12], op["issuer"][:12]))
+                # whenever the kid <-> issuer test lets the token through, the key asked from the resolver must be one of the ISSUER's DID
+                if op.get("passes_issuer_test") and "#" not in op["issuer"] and line.split("#")[0] != op["issuer"]:
+                    o_bad += 1
+                    sig = "C17:vcjwt:resolved-kid-not-of-issuer"
+                    if sig not in seen_sig:
+                        seen_sig[sig] = 1 if ctx.violation(sig, f"resolveSigningKey(kid={op['kid']!r}, issuer={op['issuer']!r}) asked the resolver for {line!r}, which is not a key id of the issuer's DID",
+                                                           "resolvekid-not-of-issuer.jsonl", ops[i]) else 0
+                    o_unsuppressed += seen_sig[sig]
+                continue
             if op.get("op") == "ambig":
                 table.setdefault("ambig", Counter())[f"{line}:conflated={op.get('conflated')}"] += 1
                 distinct.add(("ambig", line, op.get("conflated")))
